@@ -47,6 +47,40 @@ func trackerOf(m map[string]*Tracker, name string) *Tracker {
 }
 
 // C15 checks one block of lock/redeem/report traffic against the statement.
+// C15Mon adds what has to be followed over several blocks: a tracker that reached its final state (minted,
+// or failed and refunded) is moved out of the ongoing store by the block-end clean-up within a few blocks — that
+// move is what makes a later resubmission of the same external transaction refusable for good.
+type C15Mon struct{ lag map[string]int }
+
+func NewC15() *C15Mon { return &C15Mon{lag: map[string]int{}} }
+
+func (m *C15Mon) OnBlock(blk *hist.Block) []Finding {
+	out := C15(blk)
+	cur := Trackers(blk.Cur)
+	seen := map[string]bool{}
+	var ks []string
+	for k := range cur {
+		ks = append(ks, k)
+	}
+	sort.Strings(ks)
+	for _, k := range ks {
+		t := cur[k]
+		if strings.HasPrefix(k, "etht/") && (t.State == TrkReleased || t.State == TrkFailed) {
+			seen[k] = true
+			m.lag[k]++
+			if m.lag[k] == 6 {
+				out = append(out, Finding{"C15", "C15/lifecycle/finished-tracker-not-archived", fmt.Sprintf("block %d: tracker %s has been in its final state %d in the ongoing store for six blocks", blk.H, cut(t.TrackerName, 12), t.State)})
+			}
+		}
+	}
+	for k := range m.lag {
+		if !seen[k] {
+			delete(m.lag, k)
+		}
+	}
+	return out
+}
+
 func C15(blk *hist.Block) []Finding {
 	var out []Finding
 	prevT, curT := Trackers(blk.Prev), Trackers(blk.Cur)
